@@ -8,6 +8,8 @@ if ! git apply "$patch" 2>/dev/null; then
   if ! git apply --3way "$patch" >/dev/null 2>&1; then echo "PATCH DOES NOT APPLY: $patch"; git checkout -q -- . ; git reset -q; exit 3; fi
   git reset -q
 fi
+# evidence files are rewritten by every run: keep the ones of the unchanged tree
+rm -rf /verif/.build/evidence.keep; cp -r /verif/evidence /verif/.build/evidence.keep 2>/dev/null
 for id in "$@"; do
   out=$(cd /verif && ./check "$id" quick 2>&1); rc=$?
   echo "== $id exit=$rc: $(echo "$out" | grep -c '^VIOLATION') violation line(s)"
@@ -15,3 +17,4 @@ for id in "$@"; do
   echo "$out" | grep -E '^INCONCLUSIVE' | head -3
 done
 git checkout -q -- . ; git reset -q; git status --porcelain | head
+[ -d /verif/.build/evidence.keep ] && { rm -rf /verif/evidence; mv /verif/.build/evidence.keep /verif/evidence; }
